@@ -27,7 +27,9 @@ Sample == /\ Is("Sample") /\ l' = l + 1
                [] OTHER -> FALSE
 \* points sampled from a ball lie inside it (real-valued norm: computed by the driver)
 Ball == Is("Ball") /\ l' = l + 1 /\ Ev.inside /\ Ev.dimOK
-Next == KFold \/ Random \/ Sample \/ Ball
+\* the overloads writing into a caller's buffer: every element of the buffer written, nothing next to it, the point inside the ball
+BallMap == Is("BallMap") /\ l' = l + 1 /\ Ev.filled /\ Ev.guardOK /\ Ev.inside
+Next == KFold \/ Random \/ Sample \/ Ball \/ BallMap
 Init == l = 1
 Spec == Init /\ [][Next]_l
 Accepted == LET d == TLCGet("stats").diameter IN
